@@ -72,6 +72,7 @@ pub fn render(v: &Value) -> Value {
     "f4" => json!({"template": "bar($X)"}),
     "f5" => json!({"template": "bar($A)"}),
     "f7" => json!("bar($C, $D)"),
+    "f8" => json!("bar($XY)"),
     _ => json!("bar($C)"),
   };
   let rews = match s("r") {
